@@ -1,9 +1,276 @@
 import JominiModel.Driver.Util
-namespace Jomini.Driver.C13
-open Jomini Jomini.Driver
+import JominiModel.Model.Date
+/-
+Driver ops of property C13 (date codecs and arithmetic).  One canonical line per request:
+`ok …` / `none` (Option::None or Err(DateError)) / `panic`.
 
-/-- ops of property C13 (none yet). -/
+  dparse|dhparse|udparse|rawparse <hex>         text parsers of the four date types
+  frombin|frombinh|dhfrombin|dhfrombinh|rawfrombin <i32>
+  tobin y m d [h]                               Date / DateHour ::to_binary
+  fmt y m d [h] | ufmt y m d                    typed game_fmt (Date, DateHour, UniformDate)
+  iso y m d [h] | uiso y m d
+  rawfmt short|wide|iso y m d h                 PdsDateFormatter on a RawDate
+  adddays y m d n | until y m d y m d | cmp y m d y m d | dhcmp y m d h y m d h | rawcmp …
+  fdp <u64>                                     util::fast_digit_parse
+  i64t <hex>                                    scalar::to_i64_t
+  frombin-block <start> <count>                 FNV fold of Date/DateHour::from_binary over a range
+  ymd-block full|ends <year> <count>            FNV fold of codecs over every day (month ends) of the years
+  shape-block <hex>                             FNV fold of the parsers over all one-byte corruptions
+  fdp-block <seed> <count>                      FNV fold of fast_digit_parse over pseudo-random words
+-/
+namespace Jomini.Driver.C13
+open Jomini Jomini.Driver Jomini.Date
+
+def showOut {α : Type} (f : α → String) : Out α → String
+  | .ok a => "ok " ++ f a
+  | .err => "none"
+  | .panic => "panic"
+
+def ymd (y : Int) (m d : Nat) : String := s!"{y} {m} {d}"
+def ymdh (y : Int) (m d h : Nat) : String := s!"{y} {m} {d} {h}"
+
+def showDate (d : Date.Date) : String := ymd d.year d.month d.day
+def showDateHour (d : DateHour) : String := ymdh d.year d.month d.day d.hour
+def showUniform (d : UniformDate) : String := ymd d.year d.month d.day
+def showRaw (d : RawDate) : String := ymdh d.year d.month d.day d.hour
+def showOrd : Ordering → String
+  | .lt => "lt" | .eq => "eq" | .gt => "gt"
+
+/-! block hashes (FNV-1a over 64-bit codes; the harness computes the same fold) -/
+
+def fnvOffset : UInt64 := 0xcbf29ce484222325
+@[inline] def mix (h c : UInt64) : UInt64 := (h ^^^ c) * 0x100000001b3
+
+def codeYmdh (y : Int) (m d h : Nat) : UInt64 :=
+  UInt64.ofNat ((y + 32768).toNat * 16777216 + m * 65536 + d * 256 + h + 2)
+
+def codeDate : Out Date.Date → UInt64
+  | .ok d => codeYmdh d.year d.month d.day 0
+  | .err => 0
+  | .panic => 1
+def codeDateHour : Out DateHour → UInt64
+  | .ok d => codeYmdh d.year d.month d.day d.hour
+  | .err => 0
+  | .panic => 1
+def codeUniform : Out UniformDate → UInt64
+  | .ok d => codeYmdh d.year d.month d.day 0
+  | .err => 0
+  | .panic => 1
+def codeRaw : Out RawDate → UInt64
+  | .ok d => codeYmdh d.year d.month d.day d.hour
+  | .err => 0
+  | .panic => 1
+def codeInt : Out Int → UInt64
+  | .ok v => UInt64.ofNat ((v + 4294967296).toNat + 2)
+  | .err => 0
+  | .panic => 1
+def codeBytes : Out Bytes → UInt64
+  | .ok b => b.foldl (fun h x => mix h x.toUInt64) fnvOffset
+  | .err => 0
+  | .panic => 1
+
+/-- fold of `Date::from_binary s`, `DateHour::from_binary s` for `n` consecutive values. -/
+def frombinChunk : Nat → Int → UInt64 → UInt64
+  | 0, _, h => h
+  | n + 1, s, h =>
+    let h := mix h (codeDate (Date.fromBinary s))
+    let h := mix h (codeDateHour (DateHour.fromBinary s))
+    frombinChunk n (s + 1) h
+
+def chunkSize : Nat := 65536
+
+/-- chunk list `(start, len)` covering `[start, start+count)` in pieces of `chunkSize`. -/
+def chunks : Nat → Int → Nat → List (Int × Nat)
+  | 0, _, _ => []
+  | fuel + 1, start, count =>
+    if count = 0 then []
+    else
+      let n := min chunkSize count
+      (start, n) :: chunks fuel (start + n) (count - n)
+
+def foldTasks (ts : List (Task UInt64)) : UInt64 :=
+  ts.foldl (fun h t => mix h t.get) fnvOffset
+
+def frombinBlock (start : Int) (count : Nat) : UInt64 :=
+  let cs := chunks (count / chunkSize + 2) start count
+  foldTasks (cs.map fun (s, n) => Task.spawn fun _ => frombinChunk n s fnvOffset)
+
+/-- everything the property says about one calendar day, folded into the hash. -/
+def dayCodes (full : Bool) (y : Int) (m d : Nat) (idx : Nat) (h : UInt64) : UInt64 :=
+  let od := Date.fromYmdOpt y m d
+  let fmtShort := od.bind Date.gameFmt
+  let h := mix h (codeBytes fmtShort)
+  let h := mix h (codeDate (fmtShort.bind Date.parse))
+  let raw := RawDate.fromYmdhOpt y m d 0
+  let fmtWide := raw.bind (format · .dotWide)
+  let h := mix h (codeBytes fmtWide)
+  let h := mix h (codeDate (fmtWide.bind Date.parse))
+  let h := mix h (codeUniform (fmtWide.bind UniformDate.parse))
+  let h := mix h (codeRaw (fmtShort.bind RawDate.parse))
+  let h := mix h (codeBytes (od.bind Date.iso8601))
+  let bin := od.bind Date.toBinary
+  let h := mix h (codeInt bin)
+  let h := mix h (codeDate (bin.bind Date.fromBinary))
+  -- DateHour: binary codec for all 24 hours, text codec for two of them
+  let h := (List.range (if full then 24 else 0)).foldl (fun h k =>
+    let dh := DateHour.fromYmdhOpt y m d (k + 1)
+    let b := dh.bind DateHour.toBinary
+    mix (mix h (codeInt b)) (codeDateHour (b.bind DateHour.fromBinary))) h
+  let hrs := [idx % 24 + 1, (idx * 7 + 11) % 24 + 1]
+  hrs.foldl (fun h k =>
+    let dh := DateHour.fromYmdhOpt y m d k
+    let f := dh.bind DateHour.gameFmt
+    let fw := (RawDate.fromYmdhOpt y m d k).bind (format · .dotWide)
+    let h := mix h (codeBytes f)
+    let h := mix h (codeDateHour (f.bind DateHour.parse))
+    let h := mix h (codeDateHour (fw.bind DateHour.parse))
+    mix h (codeBytes (dh.bind DateHour.iso8601))) h
+
+/-- `full = true`: every day of the year; `false`: first and last day of each month. -/
+def yearCodes (full : Bool) (y : Int) : UInt64 :=
+  let days : List (Nat × Nat) :=
+    (List.range 12).flatMap fun m =>
+      let n := daysPerMonth.getD (m + 1) 0
+      if full then (List.range n).map fun d => (m + 1, d + 1) else [(m + 1, 1), (m + 1, n)]
+  let (h, _) := days.foldl (fun (h, idx) (m, d) => (dayCodes full y m d idx h, idx + 1)) (fnvOffset, 0)
+  h
+
+def ymdBlock (full : Bool) (year : Int) (count : Nat) : UInt64 :=
+  foldTasks ((List.range count).map fun (k : Nat) => Task.spawn fun _ => yearCodes full (year + (k : Int)))
+
+/-- fold of the four text parsers over every one-byte corruption of `base`: all 256 values at
+every position for `Date::parse`, a 12-symbol alphabet for the other three. -/
+def shapeBlock (base : Bytes) : UInt64 :=
+  let alpha : List UInt8 := [48, 49, 50, 57, 46, 47, 58, 45, 43, 32, 0, 255]
+  (List.range base.length).foldl (fun h pos =>
+    let h := (List.range 256).foldl (fun h v =>
+      mix h (codeDate (Date.parse (base.set pos (UInt8.ofNat v))))) h
+    alpha.foldl (fun h v =>
+      let t := base.set pos v
+      mix (mix (mix h (codeDateHour (DateHour.parse t))) (codeUniform (UniformDate.parse t))) (codeRaw (RawDate.parse t))) h) fnvOffset
+
+def splitmix (s : UInt64) : UInt64 × UInt64 :=
+  let s := s + 0x9E3779B97F4A7C15
+  let z := s
+  let z := (z ^^^ (z >>> 30)) * 0xBF58476D1CE4E5B9
+  let z := (z ^^^ (z >>> 27)) * 0x94D049BB133111EB
+  (s, z ^^^ (z >>> 31))
+
+/-- eight ASCII digits drawn from the bytes of `r` -/
+def digitWord (r : UInt64) : UInt64 :=
+  (List.range 8).foldl (fun (w : UInt64) (i : Nat) =>
+    let sh : UInt64 := 8 * i.toUInt64
+    w ||| (((48 : UInt64) + ((r >>> sh) &&& 0xFF) % 10) <<< sh)) 0
+
+def setByte (w : UInt64) (pos : UInt64) (v : UInt64) : UInt64 :=
+  (w &&& ~~~((0xFF : UInt64) <<< (8 * pos))) ||| (v <<< (8 * pos))
+
+/-- fold of `fast_digit_parse` over `n` pseudo-random words (random / all digits / one byte off) -/
+def fdpBlock : Nat → UInt64 → UInt64 → UInt64
+  | 0, _, h => h
+  | n + 1, st, h =>
+    let (st, r0) := splitmix st
+    let (st, r1) := splitmix st
+    let (st, r2) := splitmix st
+    let w :=
+      match r0 % 4 with
+      | 0 => r1
+      | 1 => digitWord r1
+      | 2 => setByte (digitWord r1) (r2 % 8) ((r2 >>> 8) &&& 0xFF)
+      | _ => setByte (digitWord r1) (r2 % 8) (if (r2 >>> 8) % 2 == 0 then 0x2f else 0x3a)
+    let c := match fastDigitParse (BitVec.ofNat 64 w.toNat) with
+      | some v => UInt64.ofNat v.toNat + 1
+      | none => 0
+    fdpBlock n st (mix h c)
+
+def fmtOf : String → Option DateFormat
+  | "short" => some .dotShort
+  | "wide" => some .dotWide
+  | "iso" => some .iso8601
+  | _ => none
+
 def handle : Handler
+  | ["dparse", h] => (parseHex h).map fun s => showOut showDate (Date.parse s)
+  | ["dhparse", h] => (parseHex h).map fun s => showOut showDateHour (DateHour.parse s)
+  | ["udparse", h] => (parseHex h).map fun s => showOut showUniform (UniformDate.parse s)
+  | ["rawparse", h] => (parseHex h).map fun s => showOut showRaw (RawDate.parse s)
+  | ["frombin", s] => (parseInt? s).map fun s => showOut showDate (Date.fromBinary s)
+  | ["frombinh", s] => (parseInt? s).map fun s => showOut showDate (Date.fromBinaryHeuristic s)
+  | ["dhfrombin", s] => (parseInt? s).map fun s => showOut showDateHour (DateHour.fromBinary s)
+  | ["dhfrombinh", s] => (parseInt? s).map fun s => showOut showDateHour (DateHour.fromBinaryHeuristic s)
+  | ["rawfrombin", s] => (parseInt? s).map fun s => showOut showRaw (RawDate.fromBinary s)
+  | ["tobin", y, m, d] => do
+    let y ← parseInt? y; let m ← parseNat? m; let d ← parseNat? d
+    pure (showOut toString ((Date.fromYmdOpt y m d).bind Date.toBinary))
+  | ["tobin", y, m, d, h] => do
+    let y ← parseInt? y; let m ← parseNat? m; let d ← parseNat? d; let h ← parseNat? h
+    pure (showOut toString ((DateHour.fromYmdhOpt y m d h).bind DateHour.toBinary))
+  | ["fmt", y, m, d] => do
+    let y ← parseInt? y; let m ← parseNat? m; let d ← parseNat? d
+    pure (showOut toHex ((Date.fromYmdOpt y m d).bind Date.gameFmt))
+  | ["fmt", y, m, d, h] => do
+    let y ← parseInt? y; let m ← parseNat? m; let d ← parseNat? d; let h ← parseNat? h
+    pure (showOut toHex ((DateHour.fromYmdhOpt y m d h).bind DateHour.gameFmt))
+  | ["ufmt", y, m, d] => do
+    let y ← parseInt? y; let m ← parseNat? m; let d ← parseNat? d
+    pure (showOut toHex ((UniformDate.fromYmdOpt y m d).bind UniformDate.gameFmt))
+  | ["iso", y, m, d] => do
+    let y ← parseInt? y; let m ← parseNat? m; let d ← parseNat? d
+    pure (showOut toHex ((Date.fromYmdOpt y m d).bind Date.iso8601))
+  | ["iso", y, m, d, h] => do
+    let y ← parseInt? y; let m ← parseNat? m; let d ← parseNat? d; let h ← parseNat? h
+    pure (showOut toHex ((DateHour.fromYmdhOpt y m d h).bind DateHour.iso8601))
+  | ["uiso", y, m, d] => do
+    let y ← parseInt? y; let m ← parseNat? m; let d ← parseNat? d
+    pure (showOut toHex ((UniformDate.fromYmdOpt y m d).bind UniformDate.iso8601))
+  | ["rawfmt", f, y, m, d, h] => do
+    let f ← fmtOf f
+    let y ← parseInt? y; let m ← parseNat? m; let d ← parseNat? d; let h ← parseNat? h
+    pure (showOut toHex ((RawDate.fromYmdhOpt y m d h).bind (format · f)))
+  | ["adddays", y, m, d, n] => do
+    let y ← parseInt? y; let m ← parseNat? m; let d ← parseNat? d; let n ← parseInt? n
+    pure (showOut showDate ((Date.fromYmdOpt y m d).bind (Date.addDays · n)))
+  | ["until", y1, m1, d1, y2, m2, d2] => do
+    let y1 ← parseInt? y1; let m1 ← parseNat? m1; let d1 ← parseNat? d1
+    let y2 ← parseInt? y2; let m2 ← parseNat? m2; let d2 ← parseNat? d2
+    pure (showOut toString
+      ((Date.fromYmdOpt y1 m1 d1).bind fun a => (Date.fromYmdOpt y2 m2 d2).bind fun b => a.daysUntil b))
+  | ["cmp", y1, m1, d1, y2, m2, d2] => do
+    let y1 ← parseInt? y1; let m1 ← parseNat? m1; let d1 ← parseNat? d1
+    let y2 ← parseInt? y2; let m2 ← parseNat? m2; let d2 ← parseNat? d2
+    pure (showOut showOrd
+      ((Date.fromYmdOpt y1 m1 d1).bind fun a => (Date.fromYmdOpt y2 m2 d2).bind fun b => .ok (a.cmp b)))
+  | ["dhcmp", y1, m1, d1, h1, y2, m2, d2, h2] => do
+    let y1 ← parseInt? y1; let m1 ← parseNat? m1; let d1 ← parseNat? d1; let h1 ← parseNat? h1
+    let y2 ← parseInt? y2; let m2 ← parseNat? m2; let d2 ← parseNat? d2; let h2 ← parseNat? h2
+    pure (showOut showOrd
+      ((DateHour.fromYmdhOpt y1 m1 d1 h1).bind fun a =>
+        (DateHour.fromYmdhOpt y2 m2 d2 h2).bind fun b => .ok (a.cmp b)))
+  | ["rawcmp", y1, m1, d1, h1, y2, m2, d2, h2] => do
+    let y1 ← parseInt? y1; let m1 ← parseNat? m1; let d1 ← parseNat? d1; let h1 ← parseNat? h1
+    let y2 ← parseInt? y2; let m2 ← parseNat? m2; let d2 ← parseNat? d2; let h2 ← parseNat? h2
+    pure (showOut showOrd
+      ((RawDate.fromYmdhOpt y1 m1 d1 h1).bind fun a =>
+        (RawDate.fromYmdhOpt y2 m2 d2 h2).bind fun b => .ok (a.cmp b)))
+  | ["fdp", v] => (parseNat? v).map fun v =>
+      match fastDigitParse (BitVec.ofNat 64 v) with
+      | some r => s!"ok {r.toNat}"
+      | none => "none"
+  | ["i64t", h] => (parseHex h).map fun s =>
+      match Scalar.toI64T s with
+      | .ok (v, rest) => s!"ok {v} {toHex rest}"
+      | .error _ => "none"
+  | ["frombin-block", s, n] => do
+    let s ← parseInt? s; let n ← parseNat? n
+    pure s!"ok {(frombinBlock s n).toNat}"
+  | ["ymd-block", mode, y, n] => do
+    let y ← parseInt? y; let n ← parseNat? n
+    let full ← (match mode with | "full" => some true | "ends" => some false | _ => none)
+    pure s!"ok {(ymdBlock full y n).toNat}"
+  | ["shape-block", h] => (parseHex h).map fun s => s!"ok {(shapeBlock s).toNat}"
+  | ["fdp-block", seed, n] => do
+    let seed ← parseNat? seed; let n ← parseNat? n
+    pure s!"ok {(fdpBlock n (UInt64.ofNat seed) fnvOffset).toNat}"
   | _ => none
 
 end Jomini.Driver.C13
